@@ -938,7 +938,12 @@ FIELDS.declare(HANDLER, "wfile", type="io.BufferedWriter")
 
 def _out_call(name, doc):
     def handler(ex, st, args, kwargs, text):
-        rest = [ex.lift(a) for a in args[1:]]
+        rest = list(args)
+        # the receiver comes first when the method was reached through a typed instance; a method taken from a concrete
+        # stream object of the running interpreter (sys.stdout.buffer.write) is called with the data only
+        if rest and (isinstance(rest[0], Meta) or (z3.is_expr(rest[0]) and st.typeof(rest[0]) is not None)):
+            rest = rest[1:]
+        rest = [ex.lift(a) for a in rest]
         st = st.copy()
         TABLE.ghost_append(st, "out", V.mk_tuple([V.S(name)] + rest))
         return [(st, ("val", V.VNone))]
@@ -1367,4 +1372,79 @@ def _tcp_server_close(ex, st, args, kwargs, text):
     """TCPServer.server_close(): closes the listening socket"""
     st = st.copy()
     TABLE.ghost_append(st, "shutdown_log", V.S("socket_closed"))
+    return [(st, ("val", V.VNone))]
+
+
+@TABLE.register("xmlrpc.client._Method.__init__")
+def _xml_method_init(ex, st, args, kwargs, text):
+    """xmlrpc.client._Method.__init__(self, send, name): stores both (self.__send = send; self.__name = name)"""
+    st = st.copy()
+    me = ex.lift(args[0])
+    snd = args[1]
+    from pyvc.symexec import BoundMeth
+    if isinstance(snd, (BoundMeth, Meta)):
+        snd = ex.reify(st, snd)
+    st.write(Val.ref(me), "_Method__send", ex.lift(snd))
+    st.write(Val.ref(me), "_Method__name", ex.lift(args[2]))
+    return [(st, ("val", V.VNone))]
+
+
+# --- CGI handler: print / sys.stdout (C17) --------------------------------------------------------------------------------------------
+str_encoded = z3.Function("str_encoded", z3.StringSort(), z3.StringSort(), z3.StringSort())   # (text, codec name) -> bytes payload
+
+
+def _str_encode(ex, st, s_, args):
+    """str.encode(codec): the bytes str_encoded(text, codec) (enc_utf8(text) for the codec name 'UTF-8'), or LookupError for an
+    unknown codec, or UnicodeEncodeError (a ValueError) for text the codec cannot represent"""
+    T.used("str.encode", _str_encode.__doc__.strip())
+    enc = ex.lift(args[0]) if args else V.S("utf-8")
+    payload = z3.If(z3.Or(enc == V.S("UTF-8"), enc == V.S("utf-8")), V.enc_utf8(Val.s(s_)), str_encoded(Val.s(s_), Val.s(enc)))
+    out = []
+    s_ok = st.copy()
+    s_ok.sig.append("encode:ok")
+    out.append((s_ok, ("val", V.VBytes(payload))))
+    for cls in (LookupError, ValueError, TypeError):
+        s_ex = st.copy()
+        s_ex.sig.append("encode:%s" % cls.__name__)
+        e = ex.env_exc(s_ex, cls)
+        out.append((s_ex, ("raise", e)))
+    return out
+
+
+TABLE.str_encode = _str_encode
+
+
+def _print(ex, st, args, kwargs, text):
+    """print(*values) to the process's standard output: appends ('print', values...) to ghost `out`; assumed not to raise"""
+    T.used("print", _print.__doc__.strip())
+    st = st.copy()
+    TABLE.ghost_append(st, "out", V.mk_tuple([V.S("print")] + [ex.lift(a) for a in args]))
+    return [(st, ("val", V.VNone))]
+
+
+TABLE.print_ = _print
+for _mod in ("_io", "builtins", "io"):
+    for _cls in ("FileIO", "BufferedWriter", "TextIOWrapper", "_BufferedIOBase", "_IOBase", "BufferedIOBase", "IOBase", "_RawIOBase"):
+        # whatever concrete stream class sys.stdout(.buffer) has in the process that runs the verifier
+        TABLE.register("%s.%s.flush" % (_mod, _cls),
+                       _out_call("flush", "flush of the standard output stream: appends ('flush',) to ghost `out`; assumed not to raise"))
+        if "%s.%s.write" % (_mod, _cls) not in TABLE.handlers:
+            TABLE.register("%s.%s.write" % (_mod, _cls),
+                           _out_call("write", "write to the standard output stream: appends ('write', data) to ghost `out`; "
+                                              "assumed not to raise"))
+
+
+@TABLE.register("xmlrpc.server.SimpleXMLRPCDispatcher.__init__")
+def _xml_dispatcher_init(ex, st, args, kwargs, text):
+    """SimpleXMLRPCDispatcher.__init__(self, allow_none, encoding, use_builtin_types): empty function table, no instance,
+    the given encoding (or 'utf-8')"""
+    st = st.copy()
+    me = ex.lift(args[0])
+    enc = kwargs.get("encoding", args[2] if len(args) > 2 else None)
+    enc = V.S("utf-8") if enc is None else ex.lift(enc)
+    st.write(Val.ref(me), "funcs", V.empty_dict())
+    st.write(Val.ref(me), "instance", V.VNone)
+    st.write(Val.ref(me), "allow_none", ex.lift(kwargs.get("allow_none", args[1] if len(args) > 1 else V.B(False))))
+    st.write(Val.ref(me), "encoding", z3.If(V.truthy(enc), enc, V.S("utf-8")))
+    st.write(Val.ref(me), "use_builtin_types", V.B(False))
     return [(st, ("val", V.VNone))]
